@@ -31,6 +31,11 @@ pub struct CrashStats {
     violations: Vec<Violation>,
     errors: Vec<String>,
     complete: bool,
+    /// crash points inside the *recovery* reorg (a second crash), and second recoveries checked
+    #[serde(default)]
+    second_crash_points: u64,
+    #[serde(default)]
+    second_recoveries: u64,
 }
 
 fn copy_dir(from: &Path, to: &Path) {
@@ -74,6 +79,9 @@ fn victims(thorough: bool) -> Vec<(String, Vec<Step>, Step)> {
     }
     v
 }
+
+/// history prefixes whose crash points also get the second-crash layer in the quick tier
+const DOUBLE_QUICK: &[&[&str]] = &[&["C"], &["B(set0=1)", "C"], &["C", "B(set0=1)"], &["C", "M1"]];
 
 struct Prepared {
     inst: Inst,
@@ -195,6 +203,10 @@ pub fn worker(tier: &str, shard: u64, nshards: u64, budget_s: f64) -> CrashStats
                 st.histories += 1;
                 *st.victims.entry(vname.clone()).or_insert(0) += 1;
             }
+            // second-crash layer: every history in the thorough tier; in the quick tier the histories of
+            // DOUBLE_QUICK (a stated sub-bound, not a sample)
+            let pname: Vec<&str> = p.iter().map(|i| alpha[*i].0.as_str()).collect();
+            let double_here = thorough || DOUBLE_QUICK.iter().any(|d| *d == pname.as_slice());
             let uni = post_world.uni.clone();
             let committed = pre_world.committed.unwrap();
             let max_ever = pre_world.max_ever.unwrap_or(committed);
@@ -219,7 +231,10 @@ pub fn worker(tier: &str, shard: u64, nshards: u64, budget_s: f64) -> CrashStats
             }
             for i in 0..=n {
                 counter += 1;
-                if counter % nshards != shard {
+                // the first-level cases of a crash point belong to one worker; the second-crash layer of a
+                // crash point is spread over all workers (each rebuilds the crashed directory)
+                let mine = counter % nshards == shard;
+                if !mine && !double_here {
                     continue;
                 }
                 if Instant::now() > deadline {
@@ -227,8 +242,10 @@ pub fn worker(tier: &str, shard: u64, nshards: u64, budget_s: f64) -> CrashStats
                     break 'hist;
                 }
                 let site = if (i as usize) < sites.len() { sites[i as usize] } else { "after-the-last-write" };
-                *st.sites.entry(site.to_string()).or_insert(0) += 1;
-                st.crash_points += 1;
+                if mine {
+                    *st.sites.entry(site.to_string()).or_insert(0) += 1;
+                    st.crash_points += 1;
+                }
                 let dir = fresh_dir();
                 let Some(mut pr) = prepare(&dir, &steps) else {
                     st.errors.push(format!("prefix not reproducible for {:?}", name));
@@ -243,7 +260,7 @@ pub fn worker(tier: &str, shard: u64, nshards: u64, budget_s: f64) -> CrashStats
                 // the process dies: everything in memory is gone
                 drop(pr);
                 // --- a crash outside commit / reorg loses only uncommitted work ---
-                if !is_commit_or_reorg {
+                if !is_commit_or_reorg && mine {
                     let mut re = Inst::open(&dir);
                     let got = obs::obs(&mut re, &{ let mut u = uni.clone(); u.max_height = u.max_height.max(committed + 1); u }, &ObsCfg::default());
                     let snap = World { recs: pre_world.snapshot.0.clone(), ..World::new() };
@@ -259,38 +276,121 @@ pub fn worker(tier: &str, shard: u64, nshards: u64, budget_s: f64) -> CrashStats
                 }
                 // --- recovery by a reorg to every eligible durable height ---
                 for h in &hs {
-                    let dh = fresh_dir();
-                    copy_dir(&dir, &dh);
-                    let mut re = Inst::open(&dh);
-                    let height = re.call("eth_blockNumber", json!([])).result().and_then(|x| x.as_str().map(|s| s.to_string())).unwrap_or_default();
-                    *st.reopened_heights.entry(height.clone()).or_insert(0) += 1;
-                    st.cases += 1;
-                    let r = re.call("brc20_reorg", json!([h]));
                     let mut detail = String::new();
-                    if !r.is_ok() {
-                        detail = format!("brc20_reorg({}) after the crash returned {}", h, canon(&r.to_value()));
-                    } else {
-                        let mut u = uni.clone();
-                        u.max_height = u.max_height.max(h + 1);
-                        let got = obs::obs(&mut re, &u, &ObsCfg::default());
-                        let (want, want_ext) = reference(&mut refi, &mut memo, &pre_world, *h, &uni);
-                        if got != want {
-                            detail = got.lines().zip(want.lines()).find(|(a, b)| a != b).map(|(a, b)| format!("after reorg({}): recovered: {} | fresh replay up to {}: {}", h, trunc(a, 600), h, trunc(b, 600))).unwrap_or_default();
+                    let mut height = String::new();
+                    // (a worker that does not own this crash point only takes its share of the second-crash
+                    // layer below)
+                    if mine {
+                        let dh = fresh_dir();
+                        copy_dir(&dir, &dh);
+                        let mut re = Inst::open(&dh);
+                        height = re.call("eth_blockNumber", json!([])).result().and_then(|x| x.as_str().map(|s| s.to_string())).unwrap_or_default();
+                        *st.reopened_heights.entry(height.clone()).or_insert(0) += 1;
+                        st.cases += 1;
+                        let r = re.call("brc20_reorg", json!([h]));
+                        if !r.is_ok() {
+                            detail = format!("brc20_reorg({}) after the crash returned {}", h, canon(&r.to_value()));
                         } else {
-                            extend(&mut re, *h);
-                            let got2 = obs::obs(&mut re, &u, &ObsCfg::default());
-                            if got2 != want_ext {
-                                detail = got2.lines().zip(want_ext.lines()).find(|(a, b)| a != b).map(|(a, b)| format!("after reorg({}) and one more block: recovered: {} | fresh replay: {}", h, trunc(a, 600), trunc(b, 600))).unwrap_or_default();
+                            let mut u = uni.clone();
+                            u.max_height = u.max_height.max(h + 1);
+                            let got = obs::obs(&mut re, &u, &ObsCfg::default());
+                            let (want, want_ext) = reference(&mut refi, &mut memo, &pre_world, *h, &uni);
+                            if got != want {
+                                detail = got.lines().zip(want.lines()).find(|(a, b)| a != b).map(|(a, b)| format!("after reorg({}): recovered: {} | fresh replay up to {}: {}", h, trunc(a, 600), h, trunc(b, 600))).unwrap_or_default();
+                            } else {
+                                extend(&mut re, *h);
+                                let got2 = obs::obs(&mut re, &u, &ObsCfg::default());
+                                if got2 != want_ext {
+                                    detail = got2.lines().zip(want_ext.lines()).find(|(a, b)| a != b).map(|(a, b)| format!("after reorg({}) and one more block: recovered: {} | fresh replay: {}", h, trunc(a, 600), trunc(b, 600))).unwrap_or_default();
+                                }
+                            }
+                        }
+                        drop(re);
+                        let _ = std::fs::remove_dir_all(&dh);
+                    }
+                    // --- a second crash, inside the recovery reorg itself: reopen again, reorg to a height
+                    // not above the target just attempted ---
+                    if detail.is_empty() && double_here && (thorough || *h == hs[0]) {
+                        let dc = fresh_dir();
+                        copy_dir(&dir, &dc);
+                        let mut rc = Inst::open(&dc);
+                        if height.is_empty() {
+                            height = rc.call("eth_blockNumber", json!([])).result().and_then(|x| x.as_str().map(|s| s.to_string())).unwrap_or_default();
+                        }
+                        v::fp_reset(u64::MAX, true);
+                        let r0 = rc.call("brc20_reorg", json!([h]));
+                        let n2 = v::fp_count();
+                        let sites2 = v::fp_log();
+                        v::fp_reset(u64::MAX, false);
+                        drop(rc);
+                        let _ = std::fs::remove_dir_all(&dc);
+                        if r0.is_ok() {
+                            for j in 0..n2 {
+                                if (counter * 7 + j) % nshards != shard {
+                                    continue;
+                                }
+                                if Instant::now() > deadline {
+                                    st.complete = false;
+                                    break;
+                                }
+                                let d2 = fresh_dir();
+                                copy_dir(&dir, &d2);
+                                let mut r2 = Inst::open(&d2);
+                                v::fp_reset(j, false);
+                                let o2 = r2.call("brc20_reorg", json!([h]));
+                                v::fp_reset(u64::MAX, false);
+                                if !o2.is_panic() {
+                                    st.errors.push(format!("{:?}: second failpoint {} of {} did not fire in the recovery reorg", name, j, n2));
+                                }
+                                drop(r2);
+                                st.second_crash_points += 1;
+                                let mut h2s = vec![*h];
+                                if lower < *h {
+                                    h2s.push(lower);
+                                }
+                                for h2 in h2s {
+                                    let d3 = fresh_dir();
+                                    copy_dir(&d2, &d3);
+                                    let mut r3 = Inst::open(&d3);
+                                    st.cases += 1;
+                                    let rr = r3.call("brc20_reorg", json!([h2]));
+                                    let mut det2 = String::new();
+                                    if !rr.is_ok() {
+                                        det2 = format!("brc20_reorg({}) after the second crash returned {}", h2, canon(&rr.to_value()));
+                                    } else {
+                                        let mut u = uni.clone();
+                                        u.max_height = u.max_height.max(h2 + 1);
+                                        let got = obs::obs(&mut r3, &u, &ObsCfg::default());
+                                        let (want, want_ext) = reference(&mut refi, &mut memo, &pre_world, h2, &uni);
+                                        if got != want {
+                                            det2 = got.lines().zip(want.lines()).find(|(a, b)| a != b).map(|(a, b)| format!("recovered: {} | fresh replay up to {}: {}", trunc(a, 600), h2, trunc(b, 600))).unwrap_or_default();
+                                        } else {
+                                            extend(&mut r3, h2);
+                                            let got2 = obs::obs(&mut r3, &u, &ObsCfg::default());
+                                            if got2 != want_ext {
+                                                det2 = got2.lines().zip(want_ext.lines()).find(|(a, b)| a != b).map(|(a, b)| format!("one more block: recovered: {} | fresh replay: {}", trunc(a, 600), trunc(b, 600))).unwrap_or_default();
+                                            }
+                                        }
+                                    }
+                                    if det2.is_empty() {
+                                        st.second_recoveries += 1;
+                                    } else if st.violations.len() < 30 {
+                                        let site2 = sites2.get(j as usize).copied().unwrap_or("?");
+                                        st.violations.push(Violation { property: "C04".into(), kind: "not-recovered-after-second-crash".into(), scenario: "crash".into(), start: "S deployed in block 1".into(), path: name.clone(), steps: steps.clone(), detail: format!("crash before write #{} of {} ({}), reopened at height {}, recovery brc20_reorg({}) crashed before its write #{} of {} ({}), reopened again, brc20_reorg({}): {}", i, n, site, height, h, j, n2, site2, h2, det2) });
+                                    }
+                                    drop(r3);
+                                    let _ = std::fs::remove_dir_all(&d3);
+                                }
+                                let _ = std::fs::remove_dir_all(&d2);
                             }
                         }
                     }
-                    if detail.is_empty() {
+                    if !mine {
+                    } else if detail.is_empty() {
                         st.recoveries += 1;
                     } else if st.violations.len() < 30 {
                         st.violations.push(Violation { property: "C04".into(), kind: "not-recovered-by-reorg".into(), scenario: "crash".into(), start: "S deployed in block 1".into(), path: name.clone(), steps: steps.clone(), detail: format!("crash before write #{} of {} ({}), reopened at height {}, recovery height {}: {}", i, n, site, height, h, detail) });
                     }
-                    drop(re);
-                    let _ = std::fs::remove_dir_all(&dh);
                 }
                 let _ = std::fs::remove_dir_all(&dir);
                 if st.violations.len() >= 30 {
@@ -326,6 +426,8 @@ pub fn run(tier: &str, seed: u64) -> i32 {
                 total.cases += st.cases;
                 total.recoveries += st.recoveries;
                 total.lost_only_uncommitted += st.lost_only_uncommitted;
+                total.second_crash_points += st.second_crash_points;
+                total.second_recoveries += st.second_recoveries;
                 for (k, v) in st.reopened_heights {
                     *total.reopened_heights.entry(k).or_insert(0) += v;
                 }
@@ -351,6 +453,7 @@ pub fn run(tier: &str, seed: u64) -> i32 {
         "samples": total.samples.iter().take(6).collect::<Vec<_>>(),
         "histories": total.histories, "histories_without_victim_writes": total.histories_skipped, "crash_points": total.crash_points, "recovered_cases": total.recoveries,
         "non_commit_victims_lost_only_uncommitted": total.lost_only_uncommitted,
+        "second_crash": {"rule": "for every first crash point of the histories [C], [B(set0=1), C], [C, B(set0=1)], [C, M1] (quick; first recovery height) / of every history (thorough; every recovery height): a second crash in front of every persistent write of the recovery reorg, reopen, reorg to the same height and to the lowest eligible one", "crash_points_inside_recovery": total.second_crash_points, "recovered_after_second_crash": total.second_recoveries},
         "heights_at_reopen": total.reopened_heights, "crash_sites": total.sites, "victims": total.victims,
         "exhaustive": total.complete, "machinery_errors": errors,
     });
@@ -358,7 +461,7 @@ pub fn run(tier: &str, seed: u64) -> i32 {
     ev.violations = new.len() as i64;
     ev.wall_s = t0.elapsed().as_secs_f64();
     ev.write();
-    println!("C04 {}: histories={} (skipped {}), crash points={}, cases={}, recovered={}, complete={}, wall={:.1}s", tier, total.histories, total.histories_skipped, total.crash_points, total.cases, total.recoveries, total.complete, ev.wall_s);
+    println!("C04 {}: histories={} (skipped {}), crash points={}, cases={}, recovered={}, second crash points={} recovered={}, complete={}, wall={:.1}s", tier, total.histories, total.histories_skipped, total.crash_points, total.cases, total.recoveries, total.second_crash_points, total.second_recoveries, total.complete, ev.wall_s);
     crate::inst::cleanup_scratch();
     let mut seen = std::collections::BTreeSet::new();
     for (id, _) in &known {
